@@ -117,7 +117,7 @@ PROPS["C10"] = {
     "verus": [],
     "kani": ["tfm_raw"],
     "witness_always": ["tfm_files"],
-    "witness_bound": {"tfm_files": "whole files through the real tftopl / pltotf algorithms: 8000 (thorough: 60000) generated .tfm files (half well-formed over small section sizes with lig/kern programs, lists, extensible recipes; half noisy / truncated / bit-flipped) and ~3 property-list texts per file (the printed list, a truncation, a one-character mutation); C10: no panic in either direction; C11: every warning-free file converts to a canonical file on which a further round trip is the byte-for-byte identity without warnings and which describes the same font (PL equal up to header defaults and unreachable lig/kern instructions)"},
+    "witness_bound": {"tfm_files": "whole files through the real tftopl / pltotf algorithms: 8000 (thorough: 60000) generated .tfm files (half well-formed over small section sizes with lig/kern programs, lists, extensible recipes; half noisy / truncated / bit-flipped) and ~4 property-list texts per file (the printed list, a truncation, a one-character mutation, a number replaced by one beyond every limit); C10: no panic in either direction; C11: every warning-free file converts to a canonical file on which a further round trip is the byte-for-byte identity without warnings and which describes the same font (PL equal up to header defaults and unreachable lig/kern instructions)"},
     "unverified_callers": [
         "validate_and_fix (480 lines over HashMap<Char,..>), from_raw_file iterator glue, Header::deserialize string handling",
         "the whole PL text side: pl/cst.rs, pl/ast.rs, From<pl::File> for File, serialize_char_infos - 'arbitrary text never panics' and 'PL->TFM output is a readable TFM' are NOT decided",
@@ -129,7 +129,7 @@ PROPS["C11"] = {
     "verus": [],
     "kani": ["tfm_raw"],
     "witness_always": ["tfm_files"],
-    "witness_bound": {"tfm_files": "whole files through the real tftopl / pltotf algorithms: 8000 (thorough: 60000) generated .tfm files (half well-formed over small section sizes with lig/kern programs, lists, extensible recipes; half noisy / truncated / bit-flipped) and ~3 property-list texts per file (the printed list, a truncation, a one-character mutation); C10: no panic in either direction; C11: every warning-free file converts to a canonical file on which a further round trip is the byte-for-byte identity without warnings and which describes the same font (PL equal up to header defaults and unreachable lig/kern instructions)"},
+    "witness_bound": {"tfm_files": "whole files through the real tftopl / pltotf algorithms: 8000 (thorough: 60000) generated .tfm files (half well-formed over small section sizes with lig/kern programs, lists, extensible recipes; half noisy / truncated / bit-flipped) and ~4 property-list texts per file (the printed list, a truncation, a one-character mutation, a number replaced by one beyond every limit); C10: no panic in either direction; C11: every warning-free file converts to a canonical file on which a further round trip is the byte-for-byte identity without warnings and which describes the same font (PL equal up to header defaults and unreachable lig/kern instructions)"},
     "unverified_callers": [
         "WORD LEVEL ONLY: pl::File::display / from_pl_source_code (text), From<pl::File> for File and back, pack_entrypoints/unpack_entrypoint, table compression - the composition to a byte-for-byte fixed point is NOT decided",
     ],
@@ -154,7 +154,7 @@ PROPS["C02"] = {
     "verus": ["texlang_macro", "stdext_kmp"],
     "kani": [],
     "witness_always": ["texlang_macro"],
-    "witness_bound": {"texlang_macro": "real VM vs an executable transcription of TeX's macro_call: prefix {none, one token} x parameters {undelimited, delimited by 1-2 tokens, trailing #{} x 1-2 parameters x 10 argument shapes (empty, token, group, several groups, nested groups, leading spaces) x 3-4 replacement texts = 4476 definitions+calls, tokens after the call included"},
+    "witness_bound": {"texlang_macro": "real VM vs an executable transcription of TeX's macro_call: prefix {none, one token} x parameters {undelimited, delimited by 1-2 tokens, trailing #{} x 1-2 parameters x 10 argument shapes (empty, token, group, several groups, nested groups, leading spaces) x 3-4 replacement texts, plus 3 to 9 parameters (mixed kinds, every parameter used, reversed and repeated, with and without a trailing #{) = 4618 definitions+calls, tokens after the call included"},
     "unverified_callers": [
         "PROVED: should_trim_outer_braces_if_present, parse_delimited_argument, parse_undelimited_argument (+ SpacesUnexpanded::parse_impl, finish_parsing_balanced_tokens), remove_tokens_from_stream, perform_replacement, the KMP matcher. BOUNDED (witness driver, not proof): Macro::call's own loop (argument index bookkeeping), Parameter::parse_argument dispatch, def.rs parse_prefix_and_parameters / parse_replacement_text",
         "## in replacement texts, more than two parameters, \\long/\\outer, the VM expansion loop",
